@@ -7,6 +7,7 @@ import (
 	"io"
 	"math/rand"
 	"strings"
+	"sync"
 
 	ipldprime "github.com/ipld/go-ipld-prime"
 	"github.com/ipld/go-ipld-prime/codec/dagcbor"
@@ -14,6 +15,7 @@ import (
 	"github.com/ipld/go-ipld-prime/fluent/qp"
 	cidlink "github.com/ipld/go-ipld-prime/linking/cid"
 	"github.com/ipld/go-ipld-prime/node/basicnode"
+	"github.com/ipld/go-ipld-prime/node/bindnode"
 	"github.com/ipld/go-ipld-prime/schema"
 	"github.com/storacha/go-ucanto/core/dag/blockstore"
 	"github.com/storacha/go-ucanto/core/delegation"
@@ -105,8 +107,16 @@ func nodeEqual(a, b datamodel.Node) bool {
 
 type c10Typed struct {
 	N int64
-	S string
+	S c10Str
 }
+
+// a Go type with a custom converter: the reader is handed bindnode options (here: upper-case on read); a typed
+// reader that drops its options returns the raw wire value (or panics on a kind mismatch)
+type c10Str string
+
+var c10Opts = []bindnode.Option{bindnode.TypedStringConverter((*c10Str)(nil),
+	func(s string) (interface{}, error) { return c10Str(strings.ToUpper(s)), nil },
+	func(v interface{}) (string, error) { return strings.ToLower(string(v.(c10Str))), nil })}
 
 var c10TypeSys = func() *schema.TypeSystem {
 	ts, err := ipldprime.LoadSchemaBytes([]byte("type OkRes struct {\n  n Int\n  s String\n}\ntype ErrRes struct {\n  n Int\n  s String\n}\n"))
@@ -521,7 +531,7 @@ func init() {
 						}
 					}
 					if typed {
-						rb, err := receipt.Rebind[c10Typed, c10Typed](rd, c10TypeSys.TypeByName("OkRes"), c10TypeSys.TypeByName("ErrRes"))
+						rb, err := receipt.Rebind[c10Typed, c10Typed](rd, c10TypeSys.TypeByName("OkRes"), c10TypeSys.TypeByName("ErrRes"), c10Opts...)
 						if err != nil {
 							direct = append(direct, map[string]any{"receipt": i, "shape": shape, "what": "Rebind failed after transport: " + err.Error()})
 						} else {
@@ -529,7 +539,7 @@ func init() {
 							common("Rebind", rb)
 							gotOk, gotVal := false, c10Typed{}
 							result.MatchResultR0(rb.Out(), func(v c10Typed) { gotOk, gotVal = true, v }, func(v c10Typed) { gotOk, gotVal = false, v })
-							if gotOk != isOk || gotVal.N != int64(i) || gotVal.S != "typed" {
+							if gotOk != isOk || gotVal.N != int64(i) || gotVal.S != "TYPED" { // the converter upper-cases
 								direct = append(direct, map[string]any{"receipt": i, "shape": shape, "reader": "Rebind", "what": "Rebind: read-back differs from what was issued: out"})
 							}
 						}
@@ -547,6 +557,54 @@ func init() {
 				samples = append(samples, map[string]any{"receipt": i, "shape": shape, "root_bytes": len(rootBlk.Bytes()), "outcome_bytes": len(obytes)})
 			}
 			_ = forkInvs
+		}
+		// ---- receipts issued CONCURRENTLY with one signer (as server.Execute does: one goroutine per invocation, all
+		// signing with the server's identity): every one of them must verify
+		nconc := 0
+		for _, sg := range signers {
+			const workers, each = 12, 3
+			type res struct {
+				rc  receipt.AnyReceipt
+				err string
+			}
+			out := make([]res, workers*each)
+			var wg sync.WaitGroup
+			for wk := 0; wk < workers; wk++ {
+				wg.Add(1)
+				go func(wk int) {
+					defer wg.Done()
+					for j := 0; j < each; j++ {
+						k := wk*each + j
+						if p := recovered(func() {
+							big := make([]byte, 200_000+k) // large outcomes keep the digest busy for long enough to overlap
+							for x := range big {
+								big[x] = byte(k + x)
+							}
+							rc, err := receipt.Issue(sg.Signer, result.Ok[nodeB, nodeB](nodeB{basicnode.NewBytes(big)}), ran.FromLink(fakeLink(88000+k)))
+							if err != nil {
+								out[k].err = err.Error()
+								return
+							}
+							out[k].rc = rc
+						}); p != nil {
+							out[k].err = fmt.Sprintf("panic: %v", p)
+						}
+					}
+				}(wk)
+			}
+			wg.Wait()
+			for k, r := range out {
+				nconc++
+				if r.err != "" {
+					direct = append(direct, map[string]any{"receipt": -1, "shape": "concurrent issuance signer=" + sg.Name, "what": fmt.Sprintf("concurrent Issue %d failed: %s", k, r.err)})
+					continue
+				}
+				ob, err := reencodeOutcome(r.rc.Root().Bytes())
+				if err != nil || !sg.Real.Verify(ob, r.rc.Signature()) {
+					direct = append(direct, map[string]any{"receipt": -1, "shape": "concurrent issuance signer=" + sg.Name,
+						"what": "a receipt issued concurrently with others by the same signer does not verify over its outcome"})
+				}
+			}
 		}
 		shards := 16
 		per := (len(cases) + shards - 1) / shards
@@ -569,6 +627,6 @@ func init() {
 			}
 		}
 		return writeJSON(o.out, "stats.json", map[string]any{"receipts": n, "verify_calls": nverify, "alteration_histogram": altHist,
-			"distinct_shapes": len(shapeHist), "rebinds": nrebind, "direct_violations": direct, "samples": samples, "byte_cases": len(cases)})
+			"distinct_shapes": len(shapeHist), "rebinds": nrebind, "concurrently_issued": nconc, "direct_violations": direct, "samples": samples, "byte_cases": len(cases)})
 	}
 }
